@@ -29,5 +29,3 @@ pub mod c20;
 pub mod oracles;
 #[cfg(kani)]
 pub mod exp;
-#[cfg(all(kani, test))]
-mod replay;
